@@ -281,13 +281,14 @@ Record audit_entry := {
   ae_destination_port : N;   (* u16, network byte order *)
 }.
 Definition as_i32 (x : N) : Z := if x <? 2147483648 then Z.of_N x else (Z.of_N x - 4294967296)%Z.
-Definition src (ix : N) (a : words) : N := nth (N.to_nat ix) a 0.
+(* sock_addr_audit_entry::from_array: logon_id, process_id, is_root, destination_ipv4, destination_port;
+   lookup_audit: logon_id as u64, process_id, is_root as i32, destination_ipv4, destination_port as u16 *)
 Definition audit_entry_of_array (a : words) : audit_entry :=
-  {| ae_logon_id := src Consts.rust_lookup_audit_src_logon_id a;
-     ae_process_id := src Consts.rust_lookup_audit_src_process_id a;
-     ae_is_admin := as_i32 (src Consts.rust_lookup_audit_src_is_admin a);
-     ae_destination_ipv4 := src Consts.rust_lookup_audit_src_destination_ipv4 a;
-     ae_destination_port := u16 (src Consts.rust_lookup_audit_src_destination_port a) |}.
+  {| ae_logon_id := nth 0 a 0;
+     ae_process_id := nth 1 a 0;
+     ae_is_admin := as_i32 (nth 2 a 0);
+     ae_destination_ipv4 := nth 3 a 0;
+     ae_destination_port := u16 (nth 4 a 0) |}.
 (* AuditEntry::destination_port_in_host_byte_order: u16::from_be *)
 Definition destination_port_in_host_byte_order (e : audit_entry) : N := bswap16 (ae_destination_port e).
 (* AuditEntry::destination_ipv4_addr: Ipv4Addr::from_bits(ip.to_be()), as its four octets *)
